@@ -15,7 +15,10 @@ def thr(n): return {'vp_thr_visit': ['a', 'b', 'c'][:n]}
 CUT_SLOTS = CUT_ARENA + ['arena10free_arenaEv', 'arena11out_of_workEv']
 UNITS['slots2'] = dict(wrapper='w_slots.cpp', mode='lcs', unroll=3, cxxflags=CXX, cut=CUT_SLOTS, threads=thr(2))
 UNITS['slots3'] = dict(wrapper='w_slots.cpp', mode='lcs', unroll=3, cxxflags=CXX, cut=CUT_SLOTS, threads=thr(3))
-UNITS['iso'] = dict(wrapper='w_iso.cpp', mode='seq', cxxflags=CXX, cut=CUT_ARENA + ['advertise_new_work'], selftest=True)
+# virtual functions that are never called by the encoded paths but are address-taken: when a virtual call goes through a
+# symbolic object pointer (which proxy was popped) cbmc explores every candidate; these heavy ones are made bodiless
+CUT_VIRT = ['14delegated_task', '10sleep_nodeImE', '9wait_nodeImE', '21numa_binding_observer', '23task_scheduler_observer']
+UNITS['iso'] = dict(wrapper='w_iso.cpp', mode='seq', cxxflags=CXX, cut=CUT_ARENA + ['advertise_new_work'] + CUT_VIRT, selftest=True)
 HARNESSES = [
   dict(name='serializer_hist', unit='mkt', harness='h_serializer.c', defines={'MODE': 0},
        scenarios=[{'PART': 0}, {'PART': 1, 'NOPS': 3}], scenarios_thorough=[{'PART': 0}, {'PART': 1, 'NOPS': 5}],
